@@ -202,6 +202,7 @@ def child(p, ops, gpath, logf, seed, inject=0.0, wait_for=None, ctx=0.0, head=Fa
         if wait_for is None and head and op is ops[0]:
             open(os.path.join(os.path.dirname(logf), 'go'), 'w').close()
     os.close(fd)
+    core.cov_save()
 
 
 def run_impl(case):
